@@ -2678,7 +2678,7 @@ class Tag(PageElement):
         :param encoding: The bytestring will be in this encoding.
         """
         contents = self.decode_contents(indent_level, encoding, formatter)
-        return contents.encode(encoding)
+        return contents.encode(encoding, "xmlcharrefreplace")
 
     @_deprecated("encode_contents", "4.0.0")
     def renderContents(
